@@ -668,27 +668,51 @@ func verifC07Method() string {
 	return verifRollingRecreate
 }
 
-// VerifC07_RollingStep: one real syncRollingUpdate over a symbolic rollout
-// state.
-func VerifC07_RollingStep() {
-	o := verifRollOpts{status: map[string]interface{}{"replicas": int64(2)}}
-	o.scope = rt.Choice("scope", 3)
-	o.method = verifC07Method()
+// verifRollTierOpts draws the configuration of a rollout state.
+//
+//	quick:    2 children, latest + 1 old revision; parent/children scope x
+//	          method x (no check | type+status+reason check); ConfigMap (core
+//	          group) children, Widget (named group) for the cluster parent with
+//	          namespaced children; hook order = reverse of the claim order.
+//	thorough: "wide": the same size with every check shape (none, type,
+//	          type+status, type+reason, all), condition list optional, both
+//	          child kinds for the namespaced parent;
+//	          "deep": 3 children, latest + 2 old revisions, cluster-scoped
+//	          parent and children, check none | type+status, both hook orders.
+func verifRollTierOpts(o *verifRollOpts) {
 	if rt.Tier() == 0 {
-		// quick: 2 children, latest + one old revision, named API group only for
-		// the cluster parent with namespaced children, check = none or full
+		o.scope = rt.Choice("scope", 3)
+		o.method = verifC07Method()
 		o.n, o.nOld = 2, 1
 		o.named = o.scope == verifScopeClusterNS
 		o.chk = rt.Choice("check", 2) * 4
 		o.reversed = true
-	} else {
-		o.n, o.nOld = 3, 2
-		if o.scope != verifScopeCluster {
+		return
+	}
+	if rt.Choice("size", 2) == 0 {
+		o.scope = rt.Choice("scope", 3)
+		o.method = verifC07Method()
+		o.n, o.nOld = 2, 1
+		o.named = o.scope == verifScopeClusterNS
+		if o.scope == verifScopeNS {
 			o.named = verifC07Bool("named-group")
 		}
 		o.chk = rt.Choice("check", 5)
-		o.reversed = verifC07Bool("hook-order-reversed")
+		o.reversed = true
+		return
 	}
+	o.scope = verifScopeCluster
+	o.method = verifC07Method()
+	o.n, o.nOld = 3, 2
+	o.chk = rt.Choice("check", 2) * 2
+	o.reversed = verifC07Bool("hook-order-reversed")
+}
+
+// VerifC07_RollingStep: one real syncRollingUpdate over a symbolic rollout
+// state.
+func VerifC07_RollingStep() {
+	o := verifRollOpts{status: map[string]interface{}{"replicas": int64(2)}}
+	verifRollTierOpts(&o)
 	s := verifRollBuild(o)
 	s.run()
 	s.checkStep()
